@@ -154,6 +154,16 @@ func init() {
 				b = 2
 			}
 			for _, sc := range FamilyConc(tier) {
+				if strings.HasPrefix(sc.Name, "conc-overrun-late") {
+					// two timer ticks, the late answer at the wrong moment and one more switch are needed to make a stolen
+					// answer visible here: four deviations, which only the thorough tier affords
+					if tier == "thorough" {
+						items = append(items, exploreCap("C02", sc, 4, true, 600))
+					} else {
+						items = append(items, explore("C02", sc, b+1, true))
+					}
+					continue
+				}
 				items = append(items, explore("C02", sc, b, true))
 			}
 			// every tolerance value, failing positions, second block (the bound must not depend on them)
